@@ -65,7 +65,7 @@ def yields_component(fl, f, R, oid, site, multi_ok=True):
             # the attribute itself is yielded: it has to have been (re)built in this call, unconditionally
             mine = [e for e in fl.events[:fl.events.index(y)] if e.kind == 'store' and fmt(fl, e.target) == 'self.sigma_xsec'
                     and not e.loops and not [g for g in e.guards if not validated(g)]]
-            ok = bool(mine)
+            ok = bool(mine) and not y.loops and not [g for g in y.guards if not validated(g)]
         if not ok:
             # (a single unconditional yield is no exception: model_full_contrib() integrates after the yield without
             #  going through prepare(), so contribute() would read whatever an earlier evaluation left in sigma_xsec)
